@@ -1444,12 +1444,22 @@ def reduction_of(prog, fn, v, t):
        or None."""
     if not isinstance(t, tuple) or not t:
         return None
-    if t[0] == "call" and t[1].rsplit("::", 1)[-1] == "fold" and len(t[2]) == 3:
+    while t[0] == "ok" and is_call(t[1], name="try_fold"):
+        t = t[1]
+    if t[0] == "call" and t[1].rsplit("::", 1)[-1] in ("fold", "try_fold") and len(t[2]) == 3:
         src, init, clo = t[2]
         body = closure_body(prog, clo, {2: ACC, 3: ITEM})
         if body is None:
             return None
-        return {"source": strip_iter_calls(src), "init": [init], "steps": [body], "after": [], "form": "fold",
+        if t[1].rsplit("::", 1)[-1] == "try_fold":
+            # the step's Ok payload(s): an Err stops the traversal and is returned
+            body = ok_of(prog, body)
+            if len(body) != 1:
+                return None
+            body = body[0]
+            if body[0] == "ok":
+                body = body  # a Result computed by a call: payload stays symbolic
+        return {"source": strip_iter_calls(src), "init": [init], "steps": [body], "after": [], "form": t[1].rsplit("::", 1)[-1],
                 "skippable": False, "early_exit": False}
     if t[0] == "phi":
         key, local = t[1]
